@@ -329,9 +329,11 @@ def dispatcher_rules(ctx, rep):
         if h is None:
             raise AnalysisError(f"dispatcher has no rule for {tname}")
         src = norm(h.func.node)
-        ctor = [n for n in ast.walk(h.func.node) if isinstance(n, ast.Call) and norm(n.func) == rs]
-        if not ctor:
-            rep.violation("C03-dispatch", h.func, f"{tname} -> {rs}", f"the dispatcher rule for {tname} does not construct a {rs}")
+        # call-graph fact: the rule refers to its ruleset class (constructed there or handed to a helper that does);
+        # which ruleset, for which dimension, applied to what is decided by interpretation below and in C0x-compose
+        refs = [n for n in ast.walk(h.func.node) if isinstance(n, ast.Name) and n.id == rs]
+        if not refs:
+            rep.violation("C03-dispatch", h.func, f"{tname} -> {rs}", f"the dispatcher rule for {tname} does not refer to {rs}")
             continue
         rep.ok("C03-dispatch", h.func, f"{tname} handled by a {rs}")
     # the ruleset is built for the length of the derivative node's last axis: the dispatcher rule interpreted with recording
